@@ -697,6 +697,15 @@ func (e *Engine) runRegs(t *Trace, h *harness) {
 	regs := map[string]regModel{}
 	mems := map[string]*bytemem.Mem{}
 	lastStore := map[string][]Op{}
+	if t.BytesIO {
+		// one of the address spaces is a byte memory (as the program image
+		// is); only constants go there
+		if bm, err := memory.NewBytes(nil); err == nil {
+			st.Mems[expr.Key("io")] = bm
+			mems["io"] = bytemem.New()
+			ctx.Probe("regs_history_over_a_byte_memory")
+		}
+	}
 
 	snapshot := func() string {
 		var sb strings.Builder
@@ -776,6 +785,21 @@ func (e *Engine) runRegs(t *Trace, h *harness) {
 				continue
 			}
 			ex = h.built[op.V]
+			if op.ValFrom > 0 {
+				if op.ValFrom > len(h.loaded) {
+					continue
+				}
+				ex = h.loaded[op.ValFrom-1] // the object itself, no copy
+				if op.ValWidth {
+					op.W = int(ex.Width())
+				}
+				ctx.Probe("value_is_what_a_register_read_returned")
+			}
+			if t.BytesIO && op.K == "apply_mem" && op.Key == "io" {
+				if _, isC := ex.(expr.Const); !isC {
+					continue // a byte memory takes constants only
+				}
+			}
 		}
 		switch op.K {
 		case "rstore":
